@@ -25,7 +25,7 @@ Precedence:
 * `C11_pratt`: for every expression tree, parsing its fully parenthesised rendering and parsing
   its minimally parenthesised rendering both return the tree (induction on the tree with the
   binding-power invariant), also through `parse_process_expression` in front of any
-  expression-ending keyword.
+  expression-ending token (`then`, `end`, `set`, … and end of input).
 
 Integer arithmetic is modelled on `Int`; Go's wrap-around beyond 2^63 is outside the model
 (trusted base).
@@ -88,11 +88,18 @@ theorem C11_pratt_in_statement (t : PExpr) (hwf : WF t) (e : PTok) (he : isExprE
     parseProcessExpression goPrec (renderFull t ++ e :: rest) = .ok t (e :: rest)
     ∧ parseProcessExpression goPrec (renderMin 1 t ++ e :: rest) = .ok t (e :: rest) := by
   obtain ⟨h1, h2⟩ := C11_pratt t hwf
+  have ne : ∀ toks : List PTok, parseTokens goPrec toks = .ok t [] → toks.isEmpty = false := by
+    intro toks h
+    cases toks with
+    | nil => simp [parseTokens, pratt] at h
+    | cons _ _ => rfl
   constructor
   · simp only [parseProcessExpression,
-      exprTokens_ok C11_prec_tables.2 e he rest _ (renderFull_ok t hwf), h1]
+      exprTokens_ok C11_prec_tables.2 e he rest _ (renderFull_ok t hwf), h1, ne _ h1]
+    rfl
   · simp only [parseProcessExpression,
-      exprTokens_ok C11_prec_tables.2 e he rest _ (renderMin_ok t hwf 1), h2]
+      exprTokens_ok C11_prec_tables.2 e he rest _ (renderMin_ok t hwf 1), h2, ne _ h2]
+    rfl
 
 /-! ## non-vacuity -/
 
